@@ -261,6 +261,7 @@ func (node *Node) ProcessBlock(ctx context.Context, block wire.Block) error {
 	defer logger.Elapsed(ctx, start, fmt.Sprintf("Processed block : %s", hash))
 	inUnconfirmed := false
 	txids := make([]*bitcoin.Hash32, 0, block.GetTxCount())
+	repeatedCount := 0 // txs of the block ignored as repeats of earlier ones
 	merkleTree := wire.NewMerkleTree(true)
 	var txs []*wire.MsgTx
 	var txsIsNew []bool
@@ -276,11 +277,12 @@ func (node *Node) ProcessBlock(ctx context.Context, block wire.Block) error {
 		}
 
 		txid := tx.TxHash()
-		if isRepeatedTx(txids, txid) {
+		if isRepeatedTx(txids, repeatedCount, txid) {
 			// The merkle root doesn't change when the last 2^n txs of a block are repeated, so a body
 			// like that passes the merkle root check. The repeated txs are not part of the block.
 			logger.Warn(ctx, "Ignoring repeated tx in block : %s", txid)
 			merkleTree.AddHash(*txid)
+			repeatedCount++
 			continue
 		}
 		txids = append(txids, txid)
@@ -481,9 +483,12 @@ func (node *Node) ProcessBlock(ctx context.Context, block wire.Block) error {
 
 // isRepeatedTx returns true if the txid is the same as an earlier txid of the block that is a power
 // of two positions back. Those are the only repeats that leave the merkle root unchanged.
-func isRepeatedTx(txids []*bitcoin.Hash32, txid *bitcoin.Hash32) bool {
-	for distance := 1; distance <= len(txids); distance *= 2 {
-		if txids[len(txids)-distance].Equal(txid) {
+// txids doesn't contain the repeated txs already ignored, so they are counted separately to get the
+// position in the block.
+func isRepeatedTx(txids []*bitcoin.Hash32, repeatedCount int, txid *bitcoin.Hash32) bool {
+	position := len(txids) + repeatedCount
+	for distance := 1; distance <= position; distance *= 2 {
+		if i := position - distance; i < len(txids) && txids[i].Equal(txid) {
 			return true
 		}
 	}
